@@ -88,7 +88,7 @@ Definition write_guard (b : N) (k : key) (updated : bool) (wc : list (N * N)) (w
 Definition gstep (s : gst) (o : gop) : option (gst * option (option val)) :=
   match o with
   | GSeq o' =>
-      do '(wc', wm') <-
+      do (wc', wm') <-
         match write_of o' with
         | Some (b, k) =>
             do bt <- find_batch b (pending (gbase s));
@@ -100,7 +100,7 @@ Definition gstep (s : gst) (o : gop) : option (gst * option (option val)) :=
             | _ => Some (wcount s, wmid s)
             end
         end;
-      do '(b', out) <- step (gbase s) o';
+      do (b', out) <- step (gbase s) o';
       Some (GSt b' wc' wm' (loads s), out)
   | GBump b k =>
       match pos with
